@@ -305,10 +305,20 @@ static void run_random(vh::Rng &rng, int nsteps, bool race) {
             int nthreads = (int)rng.range(1, NT);
             for (int t = 1; t <= nthreads; ++t) { std::vector<Commit> job; int n = (int)rng.range(1, race ? 30 : 25); for (int i = 0; i < n; ++i) job.push_back(rnd_commit(t)); start_job(t, std::move(job)); }
             int nc = race ? (int)rng.range(1, 4) : (int)rng.below(3);
+            bool filter_set = false;       // at most one filter change inside a burst, followed by a read back soon (keeps TLC's search small:
+                                           // a change that falls inside a batch is tried at every record of the batch)
             for (int i = 0; i < nc; ++i) {
                 if (rng.chance(50)) { volatile int sp = 0; for (int j = 0, n = (int)rng.below(20000); j < n; ++j) sp = sp + j; }
-                if (race) { if (enabled) call_disable(); else call_enable(); } else rnd_control(true);
+                int c = race ? 0 : (int)rng.below(100);
+                if (c < 55) { if (enabled) call_disable(); else call_enable(); }
+                else if (c < 75) { static const long long mx[] = {1, 12, 40, 150, 1000, 20000}; call_set("max", json(mx[rng.below(6)])); }
+                else if (!filter_set) {
+                    filter_set = true;
+                    if (rng.chance(40)) call_set("strat", json(rng.chance(50) ? "permit" : "reject"));
+                    else { json x = json::array(); for (int m = 0; m < 4; ++m) if (rng.chance(35)) x.push_back(MODS[m]); call_set("exempt", x); }
+                }
             }
+            if (filter_set && enabled) call_disable();
             for (int t = 1; t <= nthreads; ++t) wait_job(t);
         }
     }
